@@ -79,6 +79,8 @@ type Plan struct {
 	Clock      int64        `json:"clock,omitempty"`       // logical clock read by `now`
 	Reenter    []string     `json:"reenter,omitempty"`     // "computed" variables: serving their Get re-enters the library (same Ctx) first
 	CtxDone    bool         `json:"ctx_done,omitempty"`    // the request's context.Context (Ctx.Ctx) is already cancelled; the engine must not care
+	NilCtx     bool         `json:"nil_ctx,omitempty"`     // the caller passes a nil *Ctx (the program reads no variable)
+	RawErr     bool         `json:"raw_err,omitempty"`     // seam errors must not be rendered: their Error() panics (the library hands errors on, it does not print them)
 }
 
 func (p *Plan) Clone() Plan {
@@ -105,9 +107,22 @@ type SimErr struct {
 	Site int    // seam-call index at which it was raised
 	Kind string // get_error | get_unbound | op_error | cancel
 	What string
+	// Raw: rendering this error is not safe on the evaluating goroutine (an
+	// Error() method that panics, blocks or is expensive). The harness itself
+	// only ever formats errors through fmt, which survives that.
+	Raw bool
 }
 
-func (e *SimErr) Error() string { return fmt.Sprintf("simerr[%s@%d %s]", e.Kind, e.Site, e.What) }
+func (e *SimErr) Error() string {
+	if e.Raw && rawErrArmed {
+		panic("Error() was called on an operator's error while the library was evaluating (errors are handed on, not rendered)")
+	}
+	return fmt.Sprintf("simerr[%s@%d %s]", e.Kind, e.Site, e.What)
+}
+
+// rawErrArmed is true only while a call into the library is in flight for a
+// plan with RawErr (INLINE engine, one call at a time).
+var rawErrArmed bool
 
 // AbortPanic is what an `abort` fault panics with.
 type AbortPanic struct{ Site int }
@@ -304,13 +319,13 @@ func (e *Env) CallOp(name string, args []interface{}) (interface{}, error) {
 	e.maybeAbort(site)
 	switch {
 	case spec.Kind == "fail":
-		c.Err = &SimErr{Site: site, Kind: "op_error", What: name}
+		c.Err = &SimErr{Site: site, Kind: "op_error", What: name, Raw: e.Plan.RawErr}
 		e.Fired["op_error"]++
 	case e.failAt[site]:
-		c.Err = &SimErr{Site: site, Kind: "op_error", What: name}
+		c.Err = &SimErr{Site: site, Kind: "op_error", What: name, Raw: e.Plan.RawErr}
 		e.Fired["op_error"]++
 	case e.failOps != nil && e.failOps[OpKey(name, args)]:
-		c.Err = &SimErr{Site: site, Kind: "op_error", What: name}
+		c.Err = &SimErr{Site: site, Kind: "op_error", What: name, Raw: e.Plan.RawErr}
 		e.Fired["op_error"]++
 	case spec.Kind == "count":
 		if e.counts == nil {
@@ -485,6 +500,9 @@ func (h *OpHost) envOf(ctx *eval.Ctx) *Env {
 		}
 	}
 	if h.CompileEnv == nil {
+		if ctx != nil {
+			panic(fmt.Sprintf("a user operator was handed a Ctx whose VariableFetcher (%T) is not the one the caller put into its Ctx", ctx.VariableFetcher))
+		}
 		panic("sim: user operator called without a context and outside Compile")
 	}
 	return h.CompileEnv
@@ -728,7 +746,36 @@ func Directive(optMask int, style int) string {
 		}
 		return "false"
 	}
-	switch style % 6 {
+	switch style % 8 {
+	case 6, 7:
+		// directives that are overridden further down: first every single switch
+		// set to the OPPOSITE of what is wanted, then a general `optimize` line
+		// (which resets all four), then the wanted subset. Directives apply in
+		// source order; the last word counts.
+		s := ""
+		for i, o := range optNames {
+			opp := "true"
+			if optMask&(1<<i) != 0 {
+				opp = "false"
+			}
+			s += ";;;; " + string(o) + ": " + opp + "\n"
+		}
+		if style%8 == 6 {
+			s += ";;;; optimize: false\n"
+			for i, o := range optNames {
+				if optMask&(1<<i) != 0 {
+					s += ";;;;" + string(o) + ":true\n"
+				}
+			}
+		} else {
+			s += ";;;; optimize: true\n"
+			for i, o := range optNames {
+				if optMask&(1<<i) == 0 {
+					s += ";;;;" + string(o) + ":false\n"
+				}
+			}
+		}
+		return s
 	case 4: // ONE line: everything off, then the subset on (options of a line apply left to right)
 		s := ";;;; optimize: false"
 		for i, o := range optNames {
